@@ -37,7 +37,7 @@ TASK: produce THREE INDEPENDENT changes (numbered 1, 2, 3), each of which alone 
 4. Save the change alone: `git -C {wt} diff -- src > /tmp/{pid}{n}-change-k.patch`.
 When all three are done: `git -C {wt} checkout -- src` (leave the tree clean, with the three untracked demo files in tests/), and remove the build output (`rm -rf {wt}/target`).
 
-STYLE for this round: prefer the small classic slips over elaborate "hardenings": a wrong constant or enum value, swapped arguments or fields, a copy-paste of the neighbouring line left unadapted, big- versus little-endian, signed versus unsigned, `<` for `<=`, `&&` for `||`, a mask one bit too wide or too narrow, an index starting at 1, a field read twice or not at all, the wrong variable of two with similar names. At least two of your three changes must be of this kind, and they must still need a specific input to show.
+STYLE for this round: go where the earlier ideas did not. First list for yourself the functions and branches of the relevant files that the ideas already used (see below) do NOT touch, and place your three changes there: an error path or early return, a rarely taken branch (an optional field present, an unusual but legal flag, a second or later occurrence of something that usually happens once), a value computed in one module and consumed in another (one side changed, the other not), state that is set in one call and read in a later one, a loop bound or accumulator that only matters for the second or the last element, a default that is only used when a builder call is left out. Changes may be classic slips or small refactors, but each must live in a function none of the listed ideas modifies, and they must still need a specific input or sequence to show.
 
 These ideas have ALREADY been used by others for this property — do something different from all of them: {' | '.join(used) if used else '(none)'}
 
